@@ -115,13 +115,12 @@ impl Matcher for PermMatcher {
                     .mode_bits_match(pattern, metadata.permissions().mode())
             }
             Err(e) => {
-                writeln!(
+                let _ = writeln!(
                     &mut stderr(),
                     "Error getting permissions for {}: {}",
                     file_info.path().to_string_lossy(),
                     e
-                )
-                .unwrap();
+                );
                 false
             }
         }
@@ -129,11 +128,10 @@ impl Matcher for PermMatcher {
 
     #[cfg(not(unix))]
     fn matches(&self, _dummy_file_info: &WalkEntry, _: &mut MatcherIO) -> bool {
-        writeln!(
+        let _ = writeln!(
             &mut stderr(),
             "Permission matching not available on this platform!"
-        )
-        .unwrap();
+        );
         return false;
     }
 }
